@@ -64,7 +64,10 @@ template<class G> struct GroupRunner {
     else if(op=="Rotation"){ G X=mkG(c.args[0]); return try_rotation(X,o,0); }
     else if(op=="Translation"){ G X=mkG(c.args[0]); return try_translation(X,o,0); }
     else if(op=="IsApprox"){ G X=mkG(c.args[0]), Y=mkG(c.args[1]); S e=ScalarIO<S>::parse(c.args[2][0]); o.boolean(X.isApprox(Y,e)); }
-    else if(op=="Identity"){ o.mat(G::Identity().coeffs()); }
+    else if(op=="Identity"){ G I0; I0.setIdentity();            // evaluates Tangent::Zero().exp() now
+      G I1 = G::Identity();                                       // the cached static
+      if(!(I0.coeffs()==I1.coeffs())) throw std::runtime_error("Identity() != setIdentity()");
+      o.mat(I1.coeffs()); }
     else if(op=="Normalize"){ G X=mkG(c.args[0]); return try_normalize(X,o,0); }
     else if(op=="AssertOk"){ G X; X = vec_from<S,DG>(c.args[0]); o.mat(X.coeffs()); }   // operator=(MatrixBase): runs the AssignmentEvaluator
     else if(op=="Exp"){ T t=mkT(c.args[0]); G r = a ? t.exp(ja) : t.exp(); o.mat(r.coeffs()); if(a) o.mat(ja); }
